@@ -41,6 +41,11 @@ def rejection_cases(draw, max_n=60, logprobs=False):
     if logprobs:
         case["return_logprobs"] = draw(st.booleans())
         case["return_all"] = draw(st.booleans())
+    else:
+        case["return_logprobs"] = draw(st.sampled_from([False, False, True]))
+    # libraries whose recorded ln_prior is -inf for some rows (e.g. evaluated under a narrower prior): the rejection step
+    # looks at the likelihood only
+    case["ln_prior_neg_inf"] = draw(st.sampled_from([False, False, True]))
     return case
 
 
@@ -107,6 +112,10 @@ def run_rejection(ctx, case, lib=None, lls=None, iterative=None, order_fn=None):
         lib = fakes.scripted_library(n, units=case.get("lib_units"))
         # make the stored ln_prior values specific to this library (a value cached from another one must show)
         lib["ln_prior"] = np.asarray(lib["ln_prior"]) - 0.001 * (case.get("profile_seed", 0) % 997)
+        if case.get("ln_prior_neg_inf"):
+            lp_ = np.asarray(lib["ln_prior"], dtype=float).copy()
+            lp_[(np.arange(n) + case.get("profile_seed", 0)) % 3 == 0] = -np.inf
+            lib["ln_prior"] = lp_
         from vt import gens as _gens
         _gens.age_samples(lib, case.get("lib_history"))
     holder = [None]
